@@ -184,13 +184,14 @@ def run_case(case):
                     pad = range(n, n + npad) if m == "ljust" else range(0, npad)
                     text_result_check(m, list(args), got, want, pad=set(pad))
     # join: text agrees with str.join on the texts
-    evals += 1
-    items = [f, "x", f]
-    got, err = call(lambda: f.join(items))
-    if err is not None:
-        res.viol("join_raised", desc=desc, error=exc_str(err))
-    elif got.s != s.join([s, "x", s]):
-        res.viol("join_text_differs", desc=desc, got=got.s, expected=s.join([s, "x", s]))
+    for items in ([f, "x", f], ["", "a"], ["", ""], [f, "", "x"], ["a", "", ""], [], [""], ["a"], ["", f, ""]):
+        evals += 1
+        got, err = call(lambda: f.join(items))
+        want = s.join([getattr(x, "s", x) for x in items])
+        if err is not None:
+            res.viol("join_raised", desc=desc, items=[getattr(x, "s", x) for x in items], error=exc_str(err))
+        elif got.s != want:
+            res.viol("join_text_differs", desc=desc, items=[getattr(x, "s", x) for x in items], got=got.s, expected=want)
 
     from curtsies.formatstring import FmtStr
 
